@@ -703,4 +703,289 @@ theorem sign_is_side_change (py : K) (e : Edge K) (h1 : e.1.y ≠ py) (h2 : e.2.
     have nb : ¬ e.2.y < py := not_lt.mpr (le_of_lt b)
     rw [if_neg l, if_neg na, if_neg nb]; rfl
 
+
+theorem edges_mem : ∀ (l : List (Pt K)) (e : Edge K), e ∈ Clip.edges l → e.1 ∈ l ∧ e.2 ∈ l := by
+  intro l
+  induction l with
+  | nil => intro e he; simp [Clip.edges] at he
+  | cons x l ih =>
+    cases l with
+    | nil => intro e he; simp [Clip.edges] at he
+    | cons y l =>
+      intro e he
+      simp only [Clip.edges, List.mem_cons] at he
+      rcases he with rfl | he
+      · simp
+      · have := ih e he
+        exact ⟨List.mem_cons_of_mem _ this.1, List.mem_cons_of_mem _ this.2⟩
+
+theorem wrapEdges_mem (a : Pt K) (rest : List (Pt K)) (e : Edge K) (he : e ∈ Clip.wrapEdges (a :: rest)) :
+    e.1 ∈ a :: rest ∧ e.2 ∈ a :: rest := by
+  have h' := edges_mem _ e he
+  constructor
+  · have := h'.1; simp only [List.cons_append, List.mem_cons, List.mem_append, List.mem_singleton] at this ⊢; tauto
+  · have := h'.2; simp only [List.cons_append, List.mem_cons, List.mem_append, List.mem_singleton] at this ⊢; tauto
+
+/-- the sign contributed by each row of a chain of lines -/
+theorem rows_signs (sqrt : K → K) (x0 px py : K) (es : List (Edge K)) (hc : ∀ e ∈ es, eClear x0 px py e) :
+    ((rows sqrt x0 px py es).map fun r => (r.2.map fun p => tanSign r.1 p.1).sum) =
+      es.map fun e => if eHit x0 px py e then (if e.2.y - e.1.y < 0 then (-1 : Int) else 1) else 0 := by
+  unfold rows
+  rw [List.map_map]
+  apply List.map_congr_left
+  intro e he
+  simp only [Function.comp_def]
+  rw [segHits_line sqrt x0 px py e (hc e he)]
+  by_cases hh : eHit x0 px py e
+  · simp only [hh, if_true, List.map_cons, List.map_nil, List.sum_cons, List.sum_nil, tanSign_line, add_zero]
+  · simp only [hh, if_false, List.map_nil, List.sum_nil]
+
+theorem rows_fst (sqrt : K → K) (x0 px py : K) (vs : List (Pt K)) :
+    (rows sqrt x0 px py (Clip.wrapEdges vs)).map (·.1) = polySegs vs := by
+  unfold rows polySegs
+  rw [List.map_map]; rfl
+
+/-- **the sign sum of one ray** over a closed chain of lines in clear position with no coincident crossings: each hit edge
+    contributes the sign of its rise -/
+theorem windSum_ray (sqrt : K → K) (vs : List (Pt K)) (x0 px py : K)
+    (hc : ∀ e ∈ Clip.wrapEdges vs, eClear x0 px py e)
+    (hd : ((flatHits 0 (rows sqrt x0 px py (Clip.wrapEdges vs))).map (·.pt)).Nodup) :
+    windSum (polySegs vs) own (collect 0 ((polySegs vs).zip (rayHits sqrt vs x0 px py)) []) =
+      ((Clip.wrapEdges vs).map fun e => if eHit x0 px py e then (if e.2.y - e.1.y < 0 then (-1 : Int) else 1) else 0).sum := by
+  rw [zip_rows, collect_flat 0 _ [] (by simpa using hd)]
+  simp only [List.nil_append]
+  have h := windSum_flat (K := K) [] (rows sqrt x0 px py (Clip.wrapEdges vs))
+  simp only [List.nil_append, List.length_nil] at h
+  rw [rows_fst] at h
+  rw [h, rows_signs sqrt x0 px py _ hc]
+
+/-- no hit at all ⇒ no coincident hits -/
+theorem nodup_of_no_hit (sqrt : K → K) (x0 px py : K) (es : List (Edge K)) (hc : ∀ e ∈ es, eClear x0 px py e)
+    (hn : ∀ e ∈ es, ¬ eHit x0 px py e) : ((flatHits 0 (rows sqrt x0 px py es)).map (·.pt)).Nodup := by
+  have hl : (flatHits 0 (rows sqrt x0 px py es)).length = 0 := by
+    rw [flatHits_length, rows_sum sqrt x0 px py es hc, List.countP_eq_zero]
+    intro e he; simpa using hn e he
+  rw [List.length_eq_zero_iff.mp hl]; simp
+
+/-- the signed crossings of a closed chain through a level cancel -/
+theorem closed_signs_cancel (py : K) (a : Pt K) (rest : List (Pt K)) (hlev : ∀ v ∈ a :: rest, v.y ≠ py) :
+    ((Clip.wrapEdges (a :: rest)).map fun e => if eStraddle py e then (if e.2.y - e.1.y < 0 then (-1 : Int) else 1) else 0).sum = 0 := by
+  have h : ((Clip.wrapEdges (a :: rest)).map fun e => if eStraddle py e then (if e.2.y - e.1.y < 0 then (-1 : Int) else 1) else 0) =
+      (Clip.wrapEdges (a :: rest)).map fun e => side py e.2 - side py e.1 := by
+    apply List.map_congr_left
+    intro e he
+    have hm := wrapEdges_mem a rest e he
+    exact sign_is_side_change py e (hlev _ hm.1) (hlev _ hm.2)
+  rw [h]
+  unfold Clip.wrapEdges
+  rw [telescope]; ring
+
+/-- **winding number 0 when every crossing of the level is on one side of the point** (here: to its right).  Closed chain of
+    lines in clear position, no vertex at the level, no two coincident crossings on the right ray: the left ray meets nothing,
+    the right ray meets every straddling edge, and their signs cancel because the chain is closed. -/
+theorem winding_zero_all_right (sqrt : K → K) (a : Pt K) (rest : List (Pt K)) (px py lx rx : K)
+    (hcL : ∀ e ∈ Clip.wrapEdges (a :: rest), eClear lx px py e)
+    (hcR : ∀ e ∈ Clip.wrapEdges (a :: rest), eClear rx px py e)
+    (hlev : ∀ v ∈ a :: rest, v.y ≠ py)
+    (hbox : ∀ e ∈ Clip.wrapEdges (a :: rest), eStraddle py e → lx < eX py e ∧ eX py e < rx)
+    (hout : ∀ e ∈ Clip.wrapEdges (a :: rest), eStraddle py e → px < eX py e)
+    (hdR : ((flatHits 0 (rows sqrt rx px py (Clip.wrapEdges (a :: rest)))).map (·.pt)).Nodup) :
+    windingNumber own (polySegs (a :: rest)) (rayHits sqrt (a :: rest) lx px py) (rayHits sqrt (a :: rest) rx px py) = 0 := by
+  have nL : ∀ e ∈ Clip.wrapEdges (a :: rest), ¬ eHit lx px py e := by
+    intro e he hh
+    have := (hit_left lx px py e (hcL e he) (fun hs => (hbox e he hs).1)).mp hh
+    exact absurd this.2 (not_lt.mpr (le_of_lt (hout e he this.1)))
+  have hL := windSum_ray sqrt (a :: rest) lx px py hcL (nodup_of_no_hit sqrt lx px py _ hcL nL)
+  have hR := windSum_ray sqrt (a :: rest) rx px py hcR hdR
+  have zL : ((Clip.wrapEdges (a :: rest)).map fun e => if eHit lx px py e then (if e.2.y - e.1.y < 0 then (-1 : Int) else 1) else 0).sum = 0 := by
+    apply List.sum_eq_zero
+    intro x hx
+    obtain ⟨e, he, rfl⟩ := List.mem_map.mp hx
+    rw [if_neg (nL e he)]
+  have zR : ((Clip.wrapEdges (a :: rest)).map fun e => if eHit rx px py e then (if e.2.y - e.1.y < 0 then (-1 : Int) else 1) else 0).sum = 0 := by
+    refine Eq.trans ?_ (closed_signs_cancel py a rest hlev)
+    congr 1
+    apply List.map_congr_left
+    intro e he
+    have hiff : eHit rx px py e ↔ eStraddle py e := by
+      rw [hit_right rx px py e (hcR e he) (fun hs => (hbox e he hs).2)]
+      exact ⟨fun h => h.1, fun h => ⟨h, hout e he h⟩⟩
+    by_cases hs : eStraddle py e
+    · rw [if_pos (hiff.mpr hs), if_pos hs]
+    · rw [if_neg (fun h => hs (hiff.mp h)), if_neg hs]
+  unfold windingNumber
+  simp only [hL, hR, zL, zR]
+  rfl
+
+/-- the mirror image: every crossing to the left of the point -/
+theorem winding_zero_all_left (sqrt : K → K) (a : Pt K) (rest : List (Pt K)) (px py lx rx : K)
+    (hcL : ∀ e ∈ Clip.wrapEdges (a :: rest), eClear lx px py e)
+    (hcR : ∀ e ∈ Clip.wrapEdges (a :: rest), eClear rx px py e)
+    (hlev : ∀ v ∈ a :: rest, v.y ≠ py)
+    (hbox : ∀ e ∈ Clip.wrapEdges (a :: rest), eStraddle py e → lx < eX py e ∧ eX py e < rx)
+    (hout : ∀ e ∈ Clip.wrapEdges (a :: rest), eStraddle py e → eX py e < px)
+    (hdL : ((flatHits 0 (rows sqrt lx px py (Clip.wrapEdges (a :: rest)))).map (·.pt)).Nodup) :
+    windingNumber own (polySegs (a :: rest)) (rayHits sqrt (a :: rest) lx px py) (rayHits sqrt (a :: rest) rx px py) = 0 := by
+  have nR : ∀ e ∈ Clip.wrapEdges (a :: rest), ¬ eHit rx px py e := by
+    intro e he hh
+    have := (hit_right rx px py e (hcR e he) (fun hs => (hbox e he hs).2)).mp hh
+    exact absurd this.2 (not_lt.mpr (le_of_lt (hout e he this.1)))
+  have hR := windSum_ray sqrt (a :: rest) rx px py hcR (nodup_of_no_hit sqrt rx px py _ hcR nR)
+  have hL := windSum_ray sqrt (a :: rest) lx px py hcL hdL
+  have zR : ((Clip.wrapEdges (a :: rest)).map fun e => if eHit rx px py e then (if e.2.y - e.1.y < 0 then (-1 : Int) else 1) else 0).sum = 0 := by
+    apply List.sum_eq_zero
+    intro x hx
+    obtain ⟨e, he, rfl⟩ := List.mem_map.mp hx
+    rw [if_neg (nR e he)]
+  have zL : ((Clip.wrapEdges (a :: rest)).map fun e => if eHit lx px py e then (if e.2.y - e.1.y < 0 then (-1 : Int) else 1) else 0).sum = 0 := by
+    refine Eq.trans ?_ (closed_signs_cancel py a rest hlev)
+    congr 1
+    apply List.map_congr_left
+    intro e he
+    have hiff : eHit lx px py e ↔ eStraddle py e := by
+      rw [hit_left lx px py e (hcL e he) (fun hs => (hbox e he hs).1)]
+      exact ⟨fun h => h.1, fun h => ⟨h, hout e he h⟩⟩
+    by_cases hs : eStraddle py e
+    · rw [if_pos (hiff.mpr hs), if_pos hs]
+    · rw [if_neg (fun h => hs (hiff.mp h)), if_neg hs]
+  unfold windingNumber
+  simp only [hL, hR, zL, zR]
+  rfl
+
+/-- a straddling edge crosses the level between its two ends' abscissae -/
+theorem eX_between (py : K) (e : Edge K) (hs : eStraddle py e) :
+    min e.1.x e.2.x ≤ eX py e ∧ eX py e ≤ max e.1.x e.2.x := by
+  have hne : e.2.y ≠ e.1.y := by
+    intro hh; unfold eStraddle Straddle at hs; rw [hh] at hs; rcases hs with h | h <;> linarith [h.1, h.2]
+  have hl : e.1.y ≠ py ∧ e.2.y ≠ py := by
+    unfold eStraddle Straddle at hs
+    rcases hs with h | h
+    · exact ⟨ne_of_lt h.1, ne_of_gt h.2⟩
+    · exact ⟨ne_of_gt h.2, ne_of_lt h.1⟩
+  obtain ⟨t0, t1⟩ := (straddle_iff e.1.y e.2.y py hne hl).mp hs
+  unfold eX xstar
+  set t := T1 e.1.y e.2.y py
+  rcases le_total e.1.x e.2.x with h | h
+  · rw [min_eq_left h, max_eq_right h]
+    constructor <;> nlinarith
+  · rw [min_eq_right h, max_eq_left h]
+    constructor <;> nlinarith
+
+/-- **winding number 0 outside the bounding box.**  `l ≤ x ≤ r` for every vertex, the rays start at `l − m` and `r + m`
+    (`m = 10` in the code).  A query point left of `l`, right of `r`, below every vertex or above every vertex has winding
+    number 0 — under the clear-position, level and no-coincident-crossing hypotheses (whose failures are K1 and K6). -/
+theorem winding_zero_outside_box (sqrt : K → K) (a : Pt K) (rest : List (Pt K)) (px py l r m : K) (hm : 0 < m)
+    (hbnd : ∀ v ∈ a :: rest, l ≤ v.x ∧ v.x ≤ r)
+    (hcL : ∀ e ∈ Clip.wrapEdges (a :: rest), eClear (l - m) px py e)
+    (hcR : ∀ e ∈ Clip.wrapEdges (a :: rest), eClear (r + m) px py e)
+    (hlev : ∀ v ∈ a :: rest, v.y ≠ py)
+    (hdL : ((flatHits 0 (rows sqrt (l - m) px py (Clip.wrapEdges (a :: rest)))).map (·.pt)).Nodup)
+    (hdR : ((flatHits 0 (rows sqrt (r + m) px py (Clip.wrapEdges (a :: rest)))).map (·.pt)).Nodup)
+    (hout : px < l ∨ r < px ∨ (∀ v ∈ a :: rest, v.y < py) ∨ (∀ v ∈ a :: rest, py < v.y)) :
+    windingNumber own (polySegs (a :: rest)) (rayHits sqrt (a :: rest) (l - m) px py) (rayHits sqrt (a :: rest) (r + m) px py) = 0 := by
+  have hx : ∀ e ∈ Clip.wrapEdges (a :: rest), eStraddle py e → l ≤ eX py e ∧ eX py e ≤ r := by
+    intro e he hs
+    have hm' := wrapEdges_mem a rest e he
+    have hb := eX_between py e hs
+    have b1 := hbnd _ hm'.1
+    have b2 := hbnd _ hm'.2
+    exact ⟨le_trans (le_min b1.1 b2.1) hb.1, le_trans hb.2 (max_le b1.2 b2.2)⟩
+  have hbox : ∀ e ∈ Clip.wrapEdges (a :: rest), eStraddle py e → l - m < eX py e ∧ eX py e < r + m := by
+    intro e he hs
+    have := hx e he hs
+    constructor <;> linarith [this.1, this.2]
+  have nostr : ((∀ v ∈ a :: rest, v.y < py) ∨ (∀ v ∈ a :: rest, py < v.y)) → ∀ e ∈ Clip.wrapEdges (a :: rest), ¬ eStraddle py e := by
+    intro h e he hs
+    have hm' := wrapEdges_mem a rest e he
+    unfold eStraddle Straddle at hs
+    rcases h with h | h
+    · have h1 := h _ hm'.1; have h2 := h _ hm'.2
+      rcases hs with s | s <;> linarith [s.1, s.2]
+    · have h1 := h _ hm'.1; have h2 := h _ hm'.2
+      rcases hs with s | s <;> linarith [s.1, s.2]
+  rcases hout with h | h | h | h
+  · exact winding_zero_all_right sqrt a rest px py _ _ hcL hcR hlev hbox
+      (fun e he hs => lt_of_lt_of_le h (hx e he hs).1) hdR
+  · exact winding_zero_all_left sqrt a rest px py _ _ hcL hcR hlev hbox
+      (fun e he hs => lt_of_le_of_lt (hx e he hs).2 h) hdL
+  · exact winding_zero_all_right sqrt a rest px py _ _ hcL hcR hlev hbox
+      (fun e he hs => absurd hs (nostr (Or.inl h) e he)) hdR
+  · exact winding_zero_all_right sqrt a rest px py _ _ hcL hcR hlev hbox
+      (fun e he hs => absurd hs (nostr (Or.inr h) e he)) hdR
+
+
+/-- the abscissae of the recorded crossing points are the crossings' `eX` -/
+theorem flatHits_xs (sqrt : K → K) (x0 px py : K) (es : List (Edge K)) (hc : ∀ e ∈ es, eClear x0 px py e) (i : Nat) :
+    ((flatHits i (rows sqrt x0 px py es)).map (·.pt)).map (·.x) =
+      (es.filter fun e => decide (eHit x0 px py e)).map (eX py) := by
+  induction es generalizing i with
+  | nil => simp [rows, flatHits]
+  | cons e es ih =>
+    have he := hc e List.mem_cons_self
+    have ih' := ih (fun e' h' => hc e' (List.mem_cons_of_mem _ h')) (i + 1)
+    have hr : rows sqrt x0 px py (e :: es) =
+        (Seg.line e.1 e.2, segHits sqrt (Seg.line e.1 e.2) x0 px py (Seg.line e.1 e.2) []) :: rows sqrt x0 px py es := rfl
+    rw [hr]
+    simp only [flatHits, List.map_append, ih', List.filter_cons]
+    rw [segHits_line sqrt x0 px py e he]
+    by_cases hh : eHit x0 px py e
+    · simp only [hh, if_true, decide_true, hitsOf, List.map_cons, List.map_nil, List.singleton_append, List.cons.injEq, and_true]
+      simp only [Seg.eval, line_pointAtTime_x, eX, xstar]
+      ring
+    · simp only [hh, if_false, decide_false, hitsOf, List.map_nil, List.nil_append, Bool.false_eq_true]
+
+/-- **no two hit edges cross the level at the same abscissa ⇒ the no-coincident-crossings hypothesis** of the theorems above -/
+theorem nodup_of_distinct_crossings (sqrt : K → K) (x0 px py : K) (es : List (Edge K)) (hc : ∀ e ∈ es, eClear x0 px py e)
+    (hx : ((es.filter fun e => decide (eHit x0 px py e)).map (eX py)).Nodup) :
+    ((flatHits 0 (rows sqrt x0 px py es)).map (·.pt)).Nodup := by
+  rw [← flatHits_xs sqrt x0 px py es hc 0] at hx
+  exact List.Nodup.of_map _ hx
+
 end C11B
+
+/-! non-vacuity of the whole hypothesis set: the 10×10 square, query point (−30, 1) left of the box -/
+section examples
+open C11B Winding Gen C05M
+
+macro "clear_sq" : tactic => `(tactic|
+  (intro e he
+   simp only [Clip.wrapEdges, Clip.edges, List.cons_append, List.nil_append, List.mem_cons, List.not_mem_nil, or_false] at he
+   rcases he with h | h | h | h <;>
+     (subst h; constructor <;> (try simp only [isclose, T1, T2, xstar]) <;> norm_num [abs_le, le_max_iff])))
+
+example : windingNumber own (polySegs ([⟨5, -5⟩, ⟨5, 5⟩, ⟨-5, 5⟩, ⟨-5, -5⟩] : List (Pt ℚ)))
+    (rayHits (fun x => x) [⟨5, -5⟩, ⟨5, 5⟩, ⟨-5, 5⟩, ⟨-5, -5⟩] ((-5) - 10) (-30) 1)
+    (rayHits (fun x => x) [⟨5, -5⟩, ⟨5, 5⟩, ⟨-5, 5⟩, ⟨-5, -5⟩] (5 + 10) (-30) 1) = 0 := by
+  have hcL : ∀ e ∈ Clip.wrapEdges ([⟨5, -5⟩, ⟨5, 5⟩, ⟨-5, 5⟩, ⟨-5, -5⟩] : List (Pt ℚ)), eClear ((-5) - 10) (-30) 1 e := by clear_sq
+  have hcR : ∀ e ∈ Clip.wrapEdges ([⟨5, -5⟩, ⟨5, 5⟩, ⟨-5, 5⟩, ⟨-5, -5⟩] : List (Pt ℚ)), eClear (5 + 10) (-30) 1 e := by clear_sq
+  refine winding_zero_outside_box _ _ _ (-30) 1 (-5) 5 10 (by norm_num) ?_ hcL hcR ?_ ?_ ?_ (Or.inl (by norm_num))
+  · intro v hv; simp only [List.mem_cons, List.not_mem_nil, or_false] at hv; rcases hv with rfl | rfl | rfl | rfl <;> norm_num
+  · intro v hv; simp only [List.mem_cons, List.not_mem_nil, or_false] at hv; rcases hv with rfl | rfl | rfl | rfl <;> norm_num
+  · apply nodup_of_distinct_crossings _ _ _ _ _ hcL
+    simp only [Clip.wrapEdges, Clip.edges, List.cons_append, List.nil_append, List.filter, eHit, hit, Straddle, T2, xstar, T1]
+    norm_num [eX, xstar, T1]
+  · apply nodup_of_distinct_crossings _ _ _ _ _ hcR
+    simp only [Clip.wrapEdges, Clip.edges, List.cons_append, List.nil_append, List.filter, eHit, hit, Straddle, T2, xstar, T1]
+    norm_num [eX, xstar, T1]
+
+/-- … and the centre-ish point (0, 1) of the same square is inside (non-vacuity of `polygon_even_odd`) -/
+example : inside own (polySegs ([⟨5, -5⟩, ⟨5, 5⟩, ⟨-5, 5⟩, ⟨-5, -5⟩] : List (Pt ℚ)))
+    (rayHits (fun x => x) [⟨5, -5⟩, ⟨5, 5⟩, ⟨-5, 5⟩, ⟨-5, -5⟩] (-15) 0 1)
+    (rayHits (fun x => x) [⟨5, -5⟩, ⟨5, 5⟩, ⟨-5, 5⟩, ⟨-5, -5⟩] 15 0 1) = true := by
+  have hcL : ∀ e ∈ Clip.wrapEdges ([⟨5, -5⟩, ⟨5, 5⟩, ⟨-5, 5⟩, ⟨-5, -5⟩] : List (Pt ℚ)), eClear (-15) 0 1 e := by clear_sq
+  have hcR : ∀ e ∈ Clip.wrapEdges ([⟨5, -5⟩, ⟨5, 5⟩, ⟨-5, 5⟩, ⟨-5, -5⟩] : List (Pt ℚ)), eClear 15 0 1 e := by clear_sq
+  rw [polygon_even_odd _ _ _ 0 1 (-15) 15 hcL hcR]
+  · simp only [Clip.wrapEdges, Clip.edges, List.cons_append, List.nil_append, List.countP_cons, List.countP_nil, Straddle, xstar, T1, eX]
+    norm_num
+  · intro v hv; simp only [List.mem_cons, List.not_mem_nil, or_false] at hv; rcases hv with rfl | rfl | rfl | rfl <;> norm_num
+  · intro e he
+    simp only [Clip.wrapEdges, Clip.edges, List.cons_append, List.nil_append, List.mem_cons, List.not_mem_nil, or_false] at he
+    rcases he with rfl | rfl | rfl | rfl <;> norm_num [Straddle, eX, xstar, T1]
+  · apply nodup_of_distinct_crossings _ _ _ _ _ hcL
+    simp only [Clip.wrapEdges, Clip.edges, List.cons_append, List.nil_append, List.filter, eHit, hit, Straddle, T2, xstar, T1]
+    norm_num [eX, xstar, T1]
+  · apply nodup_of_distinct_crossings _ _ _ _ _ hcR
+    simp only [Clip.wrapEdges, Clip.edges, List.cons_append, List.nil_append, List.filter, eHit, hit, Straddle, T2, xstar, T1]
+    norm_num [eX, xstar, T1]
+
+end examples
